@@ -9,6 +9,9 @@ mod props;
 mod refs;
 
 use engine::{Ctx, Report, Tier};
+
+#[global_allocator]
+static GLOBAL: iso::Counting = iso::Counting;
 use serde_json::{json, Value};
 
 fn usage() -> ! {
